@@ -91,14 +91,14 @@ def jobs(tier):
     cpl = slice_func(FD, r'^void ConstrainedFDLayout::computePathLengths\(', "ConstrainedFDLayout::computePathLengths")
     h1, b1 = fragment_loop(cpl, r'for \(size_t i = 0; i < eLengths\.size\(\); \+\+i\)', "computePathLengths [non-positive lengths: loop body]")
     h2, b2 = fragment_loop(cpl, r'for\(unsigned j=0;j<n;j\+\+\)', "computePathLengths [post-processing: body for one pair (i,j)]")
-    b2text = subst(b2, [(r'\bcontinue;', 'return;', 1)])
+    b2text = body_continue_to_return(b2)
     cpl_cxx = ("#include <verif_base.h>\n#include <valarray>\n#include <cfloat>\n"
                "#define fprintf(...) ((void)0)   /* diagnostic output dropped */\n"
                "namespace cola {\n"
                "// data members the two fragments touch, with their real types (cola/libcola/cola.h); the class has many more\n"
                "class ConstrainedFDLayout { public: unsigned n; double** D; unsigned short** G; double minD; double m_idealEdgeLength;\n"
                "  void verif_pair_body(unsigned i, unsigned j); };\n"
-               "static void verif_lengths_body(std::valarray<double>& eLengths, size_t i)\n" + b1.text + "\n"
+               "static void verif_lengths_body(std::valarray<double>& eLengths, size_t i)\n" + body_continue_to_return(b1) + "\n"
                "void ConstrainedFDLayout::verif_pair_body(unsigned i, unsigned j)\n" + b2text + "\n}\n"
                'extern "C" void w_cpl_lengths_body(void *e, size_t i) { cola::verif_lengths_body(*(std::valarray<double> *)e, i); }\n'
                'extern "C" void w_cpl_pair_body(void *l, unsigned i, unsigned j) { ((cola::ConstrainedFDLayout *)l)->verif_pair_body(i, j); }\n')
@@ -112,6 +112,27 @@ def jobs(tier):
                   enforce="w_cpl_pair_body", defines=["JOB_cpl_pair", "CPL_INT", "CPL_BOUND=%d" % (1024 if tier == "quick" else 1048576)], slices=[cpl, b2],
                   domain="scaled-integer mode: path length and idealLength integers in [0,%s] (or the sentinel), overflow-checked" % ("2^10" if tier == "quick" else "2^20"),
                   expect=[r'postcondition', r'assigns'], flags=["--sat-solver", "cadical"], backend="sat:cadical", timeout=600))
+    # ---------------- dijkstra's relaxation step: loop-body fragment, unbounded (T -> VT = long long inside the sliced text)
+    n1 = slice_block(SP, r'^struct Node \{', "shortest_paths::Node<T>")
+    n2 = slice_block(SP, r'^struct CompareNodes \{', "shortest_paths::CompareNodes<T>")
+    dj = slice_func(SP, r'^void dijkstra\(\s*\n\s*unsigned const s,\s*\n\s*std::vector<Node<T> > & vs,', "dijkstra(s,vs,d)")
+    hdr3, rb = fragment_loop(dj, r'for\(unsigned i=0;i<u->neighbours\.size\(\);i\+\+\)', "dijkstra [relaxation: loop body for one neighbour]")
+    rb.text = body_continue_to_return(rb)      # a `continue` in the body ends this iteration
+    rb_text = subst(rb, [(r'\bT\b', 'VT', 3), (r'std::numeric_limits<VT>::max\(\)', 'VERIF_TMAX', 1)])
+    relax_cxx = (base + "#define VT long long\n#define VERIF_TMAX (1LL << 40)\n"
+                 'extern "C" void w_decreaseKey(void *heap, void *qnode, void *val);\n'
+                 "template <class T> struct PairNode;\n"
+                 "// the pairing heap stays behind a contract: only decreaseKey is reachable from the fragment\n"
+                 "template <class T, class TCompare> class PairingHeap { public:\n"
+                 "  void decreaseKey(PairNode<T> *p, const T & newVal) { w_decreaseKey((void *)this, (void *)p, (void *)newVal); } };\n"
+                 "namespace shortest_paths {\ntemplate <typename T>\n" + n1.text + "\ntemplate <typename T>\n" + n2.text + "\n"
+                 "static void verif_relax(Node<VT> *u, unsigned i, PairingHeap<Node<VT>*,CompareNodes<VT> >& Q)\n" + rb_text + "\n}\n"
+                 'extern "C" void w_relax(void *u, unsigned i, void *heap) { shortest_paths::verif_relax((shortest_paths::Node<VT> *)u, i, '
+                 '*(PairingHeap<shortest_paths::Node<VT>*,shortest_paths::CompareNodes<VT> > *)heap); }\n')
+    js.append(Job("dijkstra_relaxation_step", "U", spec, "h_relax", cxx=relax_cxx, enforce="w_relax", replace=["w_decreaseKey"], defines=["JOB_relax"],
+                  slices=[dj, rb, n1], replay=replay_c17,
+                  domain="T = long long: every distance in [0,2^40], weight in [0,2^20], any adjacency-list length; one arbitrary neighbour other than the node itself",
+                  expect=[r'w_relax\.postcondition', r'assigns']))
     return js
 
 
